@@ -679,7 +679,7 @@ func (a *Adversary) twistedNV(h uint64) bool {
 	}
 	E := a.newBlock(h, a.r.Intn(3) == 0)
 	var m *interfaces.ConsensusRawMessage
-	variant := a.r.Intn(10)
+	variant := a.r.Intn(11)
 	lateVotes := false
 	switch {
 	case variant == 9:
@@ -720,6 +720,17 @@ func (a *Adversary) twistedNV(h uint64) bool {
 			}
 		}
 		m = a.mkNV(leader, h, v, votes, nil, E, v)
+	case variant == 10: // the leader's own vote carries a cross-view proof (highest view among the votes) and the NEW_VIEW re-proposes its block
+		cp, cblk := a.crossViewProof(h, v)
+		if cp == nil {
+			return false
+		}
+		for i, vt := range votes {
+			if vt.Sender.Id == leader {
+				votes[i] = a.mkVote(leader, uint64(spi.InstanceId), h, v, cp)
+			}
+		}
+		m = a.mkNV(leader, h, v, votes, cp.PPRef.Hash, cblk, v)
 	case variant == 6: // the leader's own vote carries a spliced proof for its block: PREPREPARE ref (own signature, an earlier view it led) over genuine PREPAREs for another hash
 		sp := a.splicedProof(h, v, E)
 		if sp == nil {
@@ -864,7 +875,7 @@ func (a *Adversary) vcGames(h uint64) bool {
 	}
 	E := a.newBlock(h, false)
 	var raw *interfaces.ConsensusRawMessage
-	switch a.r.Intn(10) {
+	switch a.r.Intn(13) {
 	case 9: // a plain vote for a later view the same member leads (one or a few rotations ahead, or far away): legitimate, and
 		// it must not get in the way of the votes for the views in between
 		v2 := v + uint64(c.N())*uint64(1+a.r.Intn(3))
@@ -905,6 +916,12 @@ func (a *Adversary) vcGames(h uint64) bool {
 			return false
 		}
 		raw = ref.RawVoteMsg(a.mkVote(b, inst, h, v, sp), E)
+	case 10, 11: // cross-view proof: PREPREPARE ref of one view over the genuine PREPAREs of another view, same block
+		cp, cblk := a.crossViewProof(h, v)
+		if cp == nil {
+			return false
+		}
+		raw = ref.RawVoteMsg(a.mkVote(b, inst, h, v, cp), cblk)
 	case 5: // wrong target leader
 		other := c.Leader(v + 1)
 		a.send(b, other, ref.RawVoteMsg(a.mkVote(b, inst, h, v, nil), nil))
@@ -943,7 +960,7 @@ func (a *Adversary) garbage(h uint64) bool {
 		content = make([]byte, a.r.Intn(200))
 		a.r.Read(content)
 	}
-	from := "ndx0"
+	from := "nd0x"
 	if len(a.byz) > 0 {
 		from = a.byz[0]
 	}
@@ -1572,4 +1589,76 @@ func mkWrapLen(sign func([]byte) []byte, env ref.Env, typ ref.MT, signer string,
 		lb.Message, lb.CommitMessage = protocol.LEANHELIX_CONTENT_MESSAGE_COMMIT_MESSAGE, protocol.CommitContentBuilderFromRaw(content)
 	}
 	return &interfaces.ConsensusRawMessage{Content: lb.Build().Raw()}
+}
+
+// crossViewProof: a prepared proof stitched from two views for one and the same block hash — the PREPREPARE ref for
+// (h, u, X) signed by the Byzantine leader of a view u < v, over the PREPARE ref for (h, u', X), u' != u, with the genuine
+// PREPARE signatures that members sent for X in view u' (a block proposed in two views: re-proposal of a lock, or a Byzantine
+// leader proposing the same block again). Every signature verifies; only the two refs' views differ.
+func (a *Adversary) crossViewProof(h, v uint64) (*ref.Proof, *spi.Blk) {
+	c := a.w.Comm(h)
+	inst := uint64(spi.InstanceId)
+	type key struct {
+		v    uint64
+		hash string
+	}
+	sigs := map[key]map[string][]byte{}
+	for _, f := range a.w.Seen {
+		m := f.Msg
+		if m == nil || m.Env != ref.EnvP || m.Type != ref.P || m.H != h || m.V >= v || m.Inst != inst {
+			continue
+		}
+		if !a.w.Keys.VerifyCM(m.Sender.Id, h, m.HdrRaw, m.Sender.Sig) {
+			continue
+		}
+		k := key{m.V, string(m.Hash)}
+		if sigs[k] == nil {
+			sigs[k] = map[string][]byte{}
+		}
+		sigs[k][m.Sender.Id] = m.Sender.Sig
+	}
+	blocks := map[string]*spi.Blk{}
+	for _, p := range a.proposals(h) {
+		if p.blk != nil {
+			blocks[p.hash] = p.blk
+		}
+	}
+	var keys []key
+	for k := range sigs {
+		keys = append(keys, k)
+	}
+	sort.Slice(keys, func(i, j int) bool { return keys[i].v < keys[j].v || (keys[i].v == keys[j].v && keys[i].hash < keys[j].hash) })
+	for _, k := range keys {
+		blk := blocks[k.hash]
+		if blk == nil {
+			continue
+		}
+		for u := uint64(0); u < v && u < k.v+uint64(2*c.N())+2; u++ {
+			leader := c.Leader(u)
+			if u == k.v || !a.w.Cfg.Byz[leader] {
+				continue
+			}
+			ids := []string{leader}
+			for id := range sigs[k] {
+				if id != leader {
+					ids = append(ids, id)
+				}
+			}
+			if !c.IsQuorum(ids) {
+				continue
+			}
+			pp := &ref.Ref{Type: ref.PP, Inst: inst, H: h, V: u, Hash: []byte(k.hash)}
+			pr := &ref.Ref{Type: ref.P, Inst: inst, H: h, V: k.v, Hash: []byte(k.hash)}
+			p := &ref.Proof{PPRef: pp, PRef: pr, PPSender: &ref.Sig{Id: leader, Sig: a.sign(leader, h, pp.Bytes())}}
+			sort.Strings(ids)
+			for _, id := range ids {
+				if id != leader {
+					p.PSenders = append(p.PSenders, ref.Sig{Id: id, Sig: sigs[k][id]})
+				}
+			}
+			a.w.Mon.Stats["adv cross-view proofs built"]++
+			return p, blk
+		}
+	}
+	return nil, nil
 }
